@@ -613,7 +613,7 @@ def check_C22(tier):
     core.stage()
     rep = core.Report(prop, ENGINE, tier, seed, level="fault_enumeration")
     rep.rule = ("generated functions (nests of try/except/else/finally depth <= 3, with CM (suppressing / failing __enter__ / failing __exit__), for loops with "
-                "break/continue/return, raise, raise-from, bare raise, except* sub-grammar), every leaf a probe, X() logging sys.exc_info() with cause/context chain "
+                "break/continue/return, for/else and while/else whose break/continue sits under 1-3 levels of try-finally / try-except / with and whose else clause ends in raise/return, raise, raise-from, bare raise, except* sub-grammar), every leaf a probe, X() logging sys.exc_info() with cause/context chain "
                 "at every handler and finally entry. Per function and argument: fault-free run, then single faults (probe occurrence x exception catalogue "
                 "E1/E2/E3(subclass)/Inj(BaseException)/KeyError/StopIteration/ExceptionGroup; all of them up to a cap) and seeded double/triple faults. "
                 "non-trivial = at least one injected raise fired; distinct = (module, function, arg, plan) digest")
